@@ -27,6 +27,10 @@ def canon_msgs(out):
             if msg.startswith("Failed to parse configuration"):
                 p = "show error " + vlib.hx("Failed to parse configuration")
         res.append(p)
+    # publications made by one step for SEVERAL documents come out in hash-map order: canonical order = sorted
+    pubs = sorted(x for x in res if x.startswith("pub "))
+    it = iter(pubs)
+    res = [next(it) if x.startswith("pub ") else x for x in res]
     return " ; ".join(res)
 
 
